@@ -102,3 +102,41 @@ Definition model_cases (l : list case) : string := sconcat (map (fun c => model_
 (* the model's own run, printed (replay, diagnostics) *)
 Definition model_show (bs : list (Z * body)) (cl : list (list op)) (ch : list Z) : string :=
   show_log (log (run_model (bodies_of bs) cl ch)).
+
+(* which branches of the access programs a run exercised: (point before, point after) of every
+   step, recovered by replaying the thread ids of the model's own log *)
+Definition show_point (p : point) : string :=
+  match p with
+  | Ret => "Ret" | RetV _ => "RetV" | RelV _ => "RelV" | Unw _ => "Unw"
+  | Enq0 _ f => if f then "Ins0" else "Add0" | Enq1 _ f => if f then "Ins1" else "Add1" | Enq2 => "Enq2"
+  | Run0 => "Run0" | Run1 => "Run1" | Run2 => "Run2" | Run3 => "Run3" | Run4 _ => "Run4" | Run5 _ => "Run5" | Run6 _ => "Run6"
+  | Done0 _ => "Done0" | Done1 _ => "Done1" | Done2 => "Done2"
+  | Sp0 _ => "Sp0" | Sp1 _ => "Sp1" | Sp2 _ => "Sp2" | Bg0 _ => "Bg0" | Bg1 _ => "Bg1"
+  | Job0 _ q => if q then "Job0q" else "Job0b" | Job1 _ q => if q then "Job1q" else "Job1b"
+  | Job2 _ q => if q then "Job2q" else "Job2b"
+  | Clear0 => "Clear0" | Has0 => "Has0" | Has1 => "Has1" | Has2 => "Has2"
+  | Isr0 _ => "Isr0" | Isr1 _ => "Isr1" | Isr2 _ => "Isr2" | Cur0 => "Cur0" | Qd0 => "Qd0" | Stop0 _ => "Stop0"
+  | Sj0 _ => "Sj0" | Sj1 _ => "Sj1" | Sj2 _ => "Sj2" | Sj3 => "Sj3" | Sj4 _ => "Sj4" | Sj5 _ => "Sj5" | Sj6 _ => "Sj6"
+  end.
+Definition kont_tag (k : kont) : string :=
+  match k with KClient [] => "end" | KClient _ => "" | KJob => "job" | KRel _ => "rel" | KRetV _ _ => "val" end.
+Definition show_pc (p : pc) : string :=
+  match fst p with
+  | Ret | Unw _ => show_point (fst p) +++ "." +++ kont_tag (snd p)
+  | _ => show_point (fst p)
+  end.
+Definition pc_at (c : config pc) (t : nat) : string :=
+  match nth_error (thr c) t with Some p => show_pc p | None => "?" end.
+Fixpoint edges (bd : Z -> body) (c : config pc) (tids : list nat) : string :=
+  match tids with
+  | [] => ""
+  | t :: r =>
+      match step pc (code bd) c t with
+      | Some c' => pc_at c t +++ ">" +++ pc_at c' t +++ ";" +++ edges bd c' r
+      | None => ""
+      end
+  end.
+Definition model_edges (c : case) : string :=
+  let bd := bodies_of (c_bodies c) in
+  edges bd (jc_init (c_clients c)) (map (fun e => fst (fst e)) (c_log c)).
+Definition model_edges_cases (l : list case) : string := sconcat (map (fun c => model_edges c +++ "|") l).
